@@ -24,9 +24,22 @@ import sys
 sys.path.insert(0, os.path.dirname(os.path.dirname(os.path.abspath(__file__))))
 import vlib
 
-MODULES = ["mypy/typestate.py", "mypy/types.py", "mypy/nodes.py", "mypy/build.py", "mypy/errors.py",
-           "mypy/util.py", "mypy/graph_utils.py", "mypy/indirection.py", "mypy/server/update.py",
-           "mypy/state.py", "mypy/known_modules.py", "mypy/modulefinder.py", "mypy/find_sources.py"]
+EXCLUDE_DIRS = ("typeshed", "test", "__pycache__", "xml")
+EXCLUDE_FILES = ("stubgen", "stubtest", "stubdoc", "stubutil", "stubinfo", "stubgenc")
+
+
+def all_modules() -> list[str]:
+    """Every module under mypy/ except the test suite, typeshed and the stub tools."""
+    out = []
+    for dp, dn, fns in os.walk(os.path.join(vlib.REPO, "mypy")):
+        dn[:] = sorted(d for d in dn if d not in EXCLUDE_DIRS)
+        for fn in sorted(fns):
+            if fn.endswith(".py") and not fn.startswith(EXCLUDE_FILES):
+                out.append(os.path.relpath(os.path.join(dp, fn), vlib.REPO))
+    return out
+
+
+MODULES = all_modules()
 CLASS_JSON = os.path.join(vlib.VERIF, "tools/harness/globals_class.json")
 
 CONTAINER_CALLS = {"dict", "list", "set", "defaultdict", "Counter", "OrderedDict", "deque", "bytearray", "ChainMap"}
@@ -98,6 +111,10 @@ def value_kind(value: ast.AST | None, ann: str, classes: dict[str, ast.ClassDef]
     if isinstance(value, ast.BinOp):
         if has_container_literal(value) or re.search(r"\b(list|dict|set|List|Dict|Set)\b", ann):
             return "container"
+        # A | B, A - B, A + B over names only (e.g. sharedparse.MAGIC_METHODS): may be a set/list/dict -- list it
+        leaves = [n for n in ast.walk(value) if not isinstance(n, (ast.BinOp, ast.operator, ast.expr_context))]
+        if leaves and all(isinstance(n, (ast.Name, ast.Attribute)) for n in leaves):
+            return "container"
         return None
     if isinstance(value, ast.IfExp):
         return value_kind(value.body, ann, classes) or value_kind(value.orelse, ann, classes)
@@ -118,6 +135,28 @@ def init_fields(cls: ast.ClassDef) -> list[str]:
                     if isinstance(t, ast.Attribute) and isinstance(t.value, ast.Name) and t.value.id == "self" and t.attr not in out:
                         out.append(t.attr)
     return out
+
+
+def stateful_class(cls: ast.ClassDef) -> bool:
+    """Some method other than __init__ stores to / mutates a field of self."""
+    for n in cls.body:
+        if isinstance(n, (ast.FunctionDef, ast.AsyncFunctionDef)) and n.name not in ("__init__", "__new__"):
+            for x in ast.walk(n):
+                tg: list[ast.AST] = []
+                if isinstance(x, ast.Assign):
+                    tg = list(x.targets)
+                elif isinstance(x, (ast.AugAssign, ast.AnnAssign)):
+                    tg = [x.target]
+                for t in tg:
+                    while isinstance(t, ast.Subscript):
+                        t = t.value
+                    if isinstance(t, ast.Attribute) and isinstance(t.value, ast.Name) and t.value.id == "self":
+                        return True
+                if isinstance(x, ast.Call) and isinstance(x.func, ast.Attribute) and x.func.attr in MUTATORS \
+                        and isinstance(x.func.value, ast.Attribute) and isinstance(x.func.value.value, ast.Name) \
+                        and x.func.value.value.id == "self":
+                    return True
+    return False
 
 
 def is_lru(d: ast.AST) -> bool:
@@ -174,7 +213,7 @@ def collect_globals(mi: ModInfo) -> list[tuple[str, str]]:
             if k.startswith("instance:"):
                 cls = k.split(":", 1)[1]
                 mi.instances[tgt] = cls
-                fields = init_fields(mi.classes[cls])
+                fields = init_fields(mi.classes[cls]) if stateful_class(mi.classes[cls]) else []
                 if not fields:
                     add(tgt, k)
                 for f in fields:
@@ -208,63 +247,87 @@ def collect_globals(mi: ModInfo) -> list[tuple[str, str]]:
     return out
 
 
-def mutation_sites(name: str, owner: ModInfo, all_src: dict[str, str], trees: dict[str, ast.AST]) -> list[str]:
-    """Where the module-level object `name` of module owner.mod is mutated (file:line)."""
-    sites: list[str] = []
-    base = name.split(".")[0].rstrip("()")
-    attr = name.split(".")[1] if "." in name else None
-    short = owner.mod.rsplit(".", 1)[-1]
-    for rel, txt in all_src.items():
-        if base not in txt:
-            continue
-        same = rel == owner.rel
-        tree = trees.get(rel)
-        if tree is None:
-            tree = trees[rel] = ast.parse(txt)
-        imported_as: set[str] = set()
-        if same:
-            imported_as.add(base)
-        else:
-            for n in ast.walk(tree):
-                if isinstance(n, ast.ImportFrom) and n.module == owner.mod:
-                    for a in n.names:
-                        if a.name == base:
-                            imported_as.add(a.asname or a.name)
+def chain(e: ast.AST | None) -> tuple[str, ...] | None:
+    """Dotted name chain of an expression, looking through subscripts: self.x[k].y -> (self, x, y)."""
+    if isinstance(e, ast.Name):
+        return (e.id,)
+    if isinstance(e, ast.Attribute):
+        c = chain(e.value)
+        return c + (e.attr,) if c else None
+    if isinstance(e, ast.Subscript):
+        return chain(e.value)
+    return None
 
-        def refers(e: ast.AST) -> bool:
-            # the object itself (for Class.attr: the attribute expression)
-            if attr is not None:
-                return isinstance(e, ast.Attribute) and e.attr == attr and (
-                    (isinstance(e.value, ast.Name) and (e.value.id in imported_as or e.value.id in ("cls", "self") and same))
-                    or (isinstance(e.value, ast.Attribute) and e.value.attr == base))
-            if isinstance(e, ast.Name):
-                return e.id in imported_as
-            return isinstance(e, ast.Attribute) and e.attr == base and (
-                (isinstance(e.value, ast.Name) and e.value.id == short) or
-                (isinstance(e.value, ast.Attribute) and e.value.attr == short))
-        # only mutations inside function bodies count: module top level runs once, at import
-        in_funcs = {id(x): x for fn in ast.walk(tree) if isinstance(fn, (ast.FunctionDef, ast.AsyncFunctionDef, ast.Lambda))
-                    for x in ast.walk(fn)}
-        for n in in_funcs.values():
+
+class FileIndex:
+    """All mutation events inside function bodies of one file (module top level runs once, at import), and the
+    file's imports."""
+
+    def __init__(self, rel: str, txt: str, tree: ast.AST | None = None):
+        self.rel = rel
+        self.tree = tree or ast.parse(txt)
+        self.events: list[tuple[int, tuple[str, ...]]] = []
+        self.from_imports: dict[tuple[str, str], set[str]] = {}      # (module, name) -> local names
+        self.global_fns: dict[str, list[int]] = {}                     # name -> lines of functions rebinding it
+        seen: set[int] = set()
+        for n in ast.walk(self.tree):
+            if isinstance(n, ast.ImportFrom) and n.module:
+                for a in n.names:
+                    self.from_imports.setdefault((n.module, a.name), set()).add(a.asname or a.name)
+            if isinstance(n, (ast.FunctionDef, ast.AsyncFunctionDef, ast.Lambda)):
+                for x in ast.walk(n):
+                    if id(x) in seen:
+                        continue
+                    seen.add(id(x))
+                    if isinstance(x, ast.Global) and not isinstance(n, ast.Lambda):
+                        for g in x.names:
+                            self.global_fns.setdefault(g, []).append(n.lineno)
+                    tg: list[ast.AST] = []
+                    if isinstance(x, (ast.Assign, ast.Delete)):
+                        tg = list(x.targets)
+                    elif isinstance(x, ast.AugAssign):
+                        tg = [x.target]
+                    for t in tg:
+                        if isinstance(t, (ast.Subscript, ast.Attribute)) or (isinstance(x, ast.AugAssign) and isinstance(t, ast.Name)):
+                            c = chain(t)
+                            if c:
+                                self.events.append((x.lineno, c))
+                    if isinstance(x, ast.Call) and isinstance(x.func, ast.Attribute) and x.func.attr in MUTATORS:
+                        c = chain(x.func.value)
+                        if c:
+                            self.events.append((x.lineno, c))
+
+
+def mutation_sites(name: str, owner: ModInfo, index: dict[str, FileIndex]) -> list[str]:
+    """Where the process-global `name` of module owner.mod is mutated inside a function (file:line)."""
+    sites: list[str] = []
+    parts = name.rstrip("()").split(".")
+    base = parts[0]
+    attr = parts[1] if len(parts) > 1 else None
+    short = owner.mod.rsplit(".", 1)[-1]
+    for rel, fi in index.items():
+        same = rel == owner.rel
+        local = set(fi.from_imports.get((owner.mod, base), ()))
+        if same:
+            local.add(base)
+        for line, c in fi.events:
             hit = False
-            if isinstance(n, (ast.Assign, ast.AugAssign, ast.AnnAssign, ast.Delete)):
-                tg = n.targets if isinstance(n, (ast.Assign, ast.Delete)) else [n.target]
-                for t in tg:
-                    if isinstance(t, ast.Subscript) and refers(t.value):
-                        hit = True
-                    if isinstance(n, ast.AugAssign) and refers(t):
-                        hit = True
-                    if attr is not None and refers(t) and not isinstance(n, ast.AnnAssign):
-                        hit = True
-            elif isinstance(n, ast.Call) and isinstance(n.func, ast.Attribute) and n.func.attr in MUTATORS and refers(n.func.value):
-                hit = True
-            if hit and f"{rel}:{n.lineno}" not in sites:
-                sites.append(f"{rel}:{n.lineno}")
-        if same and attr is None and base in owner.global_rebound:
-            for fn in ast.walk(tree):
-                if isinstance(fn, (ast.FunctionDef, ast.AsyncFunctionDef)) and any(
-                        isinstance(g, ast.Global) and base in g.names for g in ast.walk(fn)):
-                    sites.append(f"{rel}:{fn.lineno}(global)")
+            if attr is None:
+                # NAME[k] = / NAME.add() / NAME += : chain (NAME,) ; NAME.f = / NAME.f.add(): chain (NAME, f)
+                if c[0] in local and len(c) <= 2:
+                    hit = True
+                elif len(c) >= 2 and short in c[:-1] and c[c.index(short) + 1: c.index(short) + 2] == (base,) and len(c) - c.index(short) <= 3:
+                    hit = True
+            else:
+                if len(c) >= 2 and c[1] == attr and (c[0] in local or (same and c[0] in ("self", "cls"))) and len(c) <= 3:
+                    hit = True
+                elif len(c) >= 3 and base in c[:-1] and c[c.index(base) + 1: c.index(base) + 2] == (attr,):
+                    hit = True
+            if hit and f"{rel}:{line}" not in sites:
+                sites.append(f"{rel}:{line}")
+        if same and attr is None:
+            for ln in fi.global_fns.get(base, []):
+                sites.append(f"{rel}:{ln}(global)")
     return sites
 
 
@@ -378,6 +441,115 @@ class Resets:
                     self.follow(b, n.func, None)
 
 
+# ------------------------------------------------------------------ the sorted choke points, syntactically
+
+def find_func(tree: ast.AST, qual: str) -> ast.FunctionDef:
+    cur: ast.AST = tree
+    for part in qual.split("."):
+        nxt = None
+        for n in getattr(cur, "body", []):
+            if isinstance(n, (ast.FunctionDef, ast.ClassDef)) and n.name == part:
+                nxt = n
+        if nxt is None:
+            raise Unsupported(f"{qual}: {part} not found")
+        cur = nxt
+    if not isinstance(cur, ast.FunctionDef):
+        raise Unsupported(f"{qual} is not a function")
+    return cur
+
+
+def is_sorted_call(e: ast.AST) -> bool:
+    return isinstance(e, ast.Call) and isinstance(e.func, ast.Name) and e.func.id == "sorted"
+
+
+def for_iters(fn: ast.AST) -> list[ast.AST]:
+    return [n.iter for n in ast.walk(fn) if isinstance(n, (ast.For, ast.comprehension))]
+
+
+def sorted_sites() -> tuple[list[tuple[str, bool]], bool]:
+    """(site, is it still canonicalised the way the Coq model assumes) for every modelled choke point."""
+    b = ast.parse(vlib.read_repo("mypy/build.py"))
+    nd = ast.parse(vlib.read_repo("mypy/nodes.py"))
+    ty = ast.parse(vlib.read_repo("mypy/types.py"))
+    ut = ast.parse(vlib.read_repo("mypy/util.py"))
+    er = ast.parse(vlib.read_repo("mypy/errors.py"))
+    out: list[tuple[str, bool]] = []
+    f = find_func(b, "deps_to_json")
+    comps = [n for n in ast.walk(f) if isinstance(n, ast.DictComp)]
+    deps_sorted = len(comps) == 1 and is_sorted_call(comps[0].value)
+    out.append(("build.deps_to_json: {k: sorted(v)}", deps_sorted))
+    f = find_func(b, "State.patch_indirect_dependencies")
+    out.append(("build.State.patch_indirect_dependencies: for dep in sorted(encountered - existing_deps)",
+                any(is_sorted_call(i) and "encountered" in ast.unparse(i) for i in for_iters(f))))
+    f = find_func(b, "transitive_dep_hash")
+    assigns = [n for n in ast.walk(f) if isinstance(n, ast.Assign) and ast.unparse(n.targets[0]) == "all_direct_deps"]
+    out.append(("build.transitive_dep_hash: all_direct_deps = sorted(...) on both paths",
+                len(assigns) == 2 and all(is_sorted_call(a.value) for a in assigns)))
+    f = find_func(b, "order_ascc")
+    rets = [n.value for n in ast.walk(f) if isinstance(n, ast.Return) and n.value is not None and is_sorted_call(n.value)]
+    out.append(("build.order_ascc: sorted(ascc, key=lambda id: -graph[id].order)",
+                len(rets) == 1 and is_sorted_call(rets[0]) and "-graph[id].order" in ast.unparse(rets[0])))
+    f = find_func(b, "sorted_components")
+    out.append(("build.sorted_components: sorted(ready, key=-min order)",
+                any(is_sorted_call(n) and ast.unparse(n.args[0]) == "ready" and "-min(" in ast.unparse(n) for n in ast.walk(f))))
+    f = find_func(nd, "SymbolTable.write")
+    out.append(("nodes.SymbolTable.write: for key in sorted(self)",
+                any(is_sorted_call(i) and ast.unparse(i.args[0]) == "self" for i in for_iters(f))))
+    f = find_func(ty, "write_type_map")
+    # since the C11 fix write_type_map keeps the dict's insertion order on purpose (TypedDict item order is visible in
+    # messages): NOT a sorted choke point any more; its bytes are a function of the insertion order, which is source order
+    out.append(("types.write_type_map: for key in value (insertion order kept, not modelled as a sorted choke point)",
+                [ast.unparse(i) for i in for_iters(f)] == ["value"]))
+    f = find_func(ut, "json_dumps")
+    src = ast.unparse(f)
+    dumps = [n for n in ast.walk(f) if isinstance(n, ast.Call) and isinstance(n.func, ast.Attribute) and n.func.attr == "dumps"]
+    ok = True
+    for d in dumps:
+        if ast.unparse(d.func.value) == "json":
+            ok = ok and any(k.arg == "sort_keys" and ast.unparse(k.value) == "True" for k in d.keywords)
+    opts = [n for n in ast.walk(f) if isinstance(n, ast.Assign) and ast.unparse(n.targets[0]) == "dumps_option"]
+    ok = ok and len(opts) >= 1 and all("OPT_SORT_KEYS" in ast.unparse(o.value) for o in opts) and "option=dumps_option" in src
+    out.append(("util.json_dumps: sort_keys on every path", ok and len(dumps) >= 3))
+    # str sets written through write_str_list / serialised into dict values
+    for tree, mod, attrs in ((nd, "nodes", ["future_import_flags", "slots"]), (ty, "types", ["immutable", "required_keys", "readonly_keys"])):
+        for a in attrs:
+            good = 0
+            bad = 0
+            for n in ast.walk(tree):
+                if isinstance(n, ast.Call) and call_name(n.func) == "write_str_list" and len(n.args) == 2 and f"self.{a}" in ast.unparse(n.args[1]):
+                    if is_sorted_call(n.args[1]):
+                        good += 1
+                    else:
+                        bad += 1
+                if isinstance(n, ast.Dict):
+                    for k, v in zip(n.keys, n.values):
+                        if isinstance(k, ast.Constant) and k.value == a and f"self.{a}" in ast.unparse(v):
+                            if any(is_sorted_call(x) for x in ast.walk(v)):
+                                good += 1
+                            else:
+                                bad += 1
+            out.append((f"{mod}: self.{a} written as sorted(...) (write and serialize)", good >= 2 and bad == 0))
+    f = find_func(er, "Errors.sort_messages")
+    keys = [ast.unparse(k.value) for n in ast.walk(f) if is_sorted_call(n) for k in n.keywords if k.arg == "key"]
+    out.append(("errors.Errors.sort_messages: key=lambda x: (x.line, x.column)", keys == ["lambda x: (x.line, x.column)"]))
+    f = find_func(er, "Errors.sort_within_context")
+    keys = [ast.unparse(k.value) for n in ast.walk(f) if is_sorted_call(n) for k in n.keywords if k.arg == "key"]
+    out.append(("errors.Errors.sort_within_context: key=lambda x: x.priority", keys == ["lambda x: x.priority"]))
+    return out, deps_sorted
+
+
+def render_sites() -> str:
+    sites, deps_sorted = sorted_sites()
+    out = ["(* GENERATED from mypy/build.py, nodes.py, types.py, util.py, errors.py by tools/extractors/t10.py -- do not edit *)",
+           "From Coq Require Import List String Bool.", "Import ListNotations.", "Open Scope string_scope.", "",
+           "(* does the code at each modelled choke point still canonicalise the order the way C10/Model.v assumes? *)",
+           "Definition sorted_sites : list (string * bool) := ["]
+    out.append(";\n".join(f"  ({coq_str(n)}, {'true' if b else 'false'})" for n, b in sites))
+    out.append("].\n\n(* build.deps_to_json sorts the targets of every trigger *)")
+    out.append(f"Definition deps_to_json_sorted : bool := {'true' if deps_sorted else 'false'}.\n")
+    return "\n".join(out)
+
+
 def coq_str(s: str) -> str:
     return '"' + s.replace('"', '""') + '"'
 
@@ -387,25 +559,27 @@ CLASSES = {"reset_per_build": "ResetPerBuild", "immutable_after_import": "Immuta
 
 
 def extract() -> dict:
-    mods = {modname(r): ModInfo(r) for r in MODULES}
-    all_src: dict[str, str] = {}
+    modules = all_modules()
+    mods = {modname(r): ModInfo(r) for r in modules}
+    index: dict[str, FileIndex] = {}
     root = os.path.join(vlib.REPO, "mypy")
     for dp, dn, fns in os.walk(root):
-        dn[:] = [d for d in dn if d not in ("typeshed", "test", "__pycache__", "xml")]
+        dn[:] = [d for d in dn if d not in EXCLUDE_DIRS]
         for fn in fns:
             if fn.endswith(".py"):
                 p = os.path.join(dp, fn)
-                all_src[os.path.relpath(p, vlib.REPO)] = open(p, encoding="utf-8").read()
-    trees: dict[str, ast.AST] = {mi.rel: mi.tree for mi in mods.values()}
+                rel = os.path.relpath(p, vlib.REPO)
+                mi = mods.get(modname(rel))
+                index[rel] = FileIndex(rel, "" if mi else open(p, encoding="utf-8").read(), mi.tree if mi else None)
     globs: list[tuple[str, str, list[str]]] = []
     for mi in mods.values():
         for gid, kind in collect_globals(mi):
             name = gid.split(":", 1)[1]
-            sites = [] if kind.startswith("field:") or kind == "lru_cache" else mutation_sites(name, mi, all_src, trees)
+            sites = [] if kind == "lru_cache" else mutation_sites(name, mi, index)
             globs.append((gid, kind, sites))
     rs = Resets(mods)
     rs.from_build()
-    return {"globals": globs, "reset": rs.reset, "calls": rs.calls}
+    return {"globals": globs, "reset": rs.reset, "calls": rs.calls, "modules": modules}
 
 
 def load_classification() -> dict[str, dict[str, str]]:
@@ -416,7 +590,7 @@ def load_classification() -> dict[str, dict[str, str]]:
 
 
 def render(ex: dict, cl: dict[str, dict[str, str]]) -> str:
-    out = ["(* GENERATED from " + ", ".join(MODULES) + " and tools/harness/globals_class.json by tools/extractors/t10.py"
+    out = [f"(* GENERATED from the {len(ex['modules'])} modules under mypy/ (without test/, typeshed/, stub tools) and tools/harness/globals_class.json by tools/extractors/t10.py"
            " -- do not edit; regenerated on every run *)",
            "From Coq Require Import List String Bool.", "Import ListNotations.", "Open Scope string_scope.", "",
            "Inductive gclass := ResetPerBuild | ImmutableAfterImport | CacheTransparent | Finding.", "",
@@ -446,7 +620,9 @@ def generate() -> dict[str, str]:
     ex = extract()
     txt = render(ex, load_classification())
     vlib.write_if_changed(os.path.join(vlib.GEN, "Globals.v"), txt)
-    return {"Globals.v": txt}
+    st = render_sites()
+    vlib.write_if_changed(os.path.join(vlib.GEN, "SortedSites.v"), st)
+    return {"Globals.v": txt, "SortedSites.v": st}
 
 
 if __name__ == "__main__":
